@@ -84,6 +84,7 @@ impl Prop for C02 {
             controllers,
             tree,
             plain488: false,
+            no_mav: false,
         };
         let mut t = base_trace("C02", seed, run, "history", cfg.clone());
         let tc = TreeCtx::new(&cfg.tree);
